@@ -54,7 +54,12 @@ Inductive hop :=
 
 Inductive hstep := St (o : hop) (size qlen : Z).
 (* cfg = [rcvBufSizeMax; socket family 4|6; v6only 0|1] *)
-Inductive case := CHist (cfg : list Z) (steps : list hstep).
+(* CConc: steps (bind, then arrivals injected by one goroutine, observations (-1) = not taken) ran
+   concurrently with several goroutines calling Read; readers = what each reader's successful
+   Reads returned, in its own order; the last list is the final drain by the main goroutine *)
+Inductive case :=
+| CHist (cfg : list Z) (steps : list hstep)
+| CConc (cfg : list Z) (steps : list hstep) (readers : list (list robs)).
 
 Definition cfg_max (cfg : list Z) : Z := nth 0 cfg 0.
 Definition cfg_fam (cfg : list Z) : Z := nth 1 cfg 4.
@@ -194,7 +199,7 @@ Definition corr_step (cfg : list Z) (st : endpoint * reg) (h : hstep) : option (
         end in
       match res with
       | Some (e', g') =>
-          if (rcvBufSize e' =? size) && (Z.of_nat (length (rcvList e')) =? qlen) then Some (e', g') else None
+          if (size =? -1) || ((rcvBufSize e' =? size) && (Z.of_nat (length (rcvList e')) =? qlen)) then Some (e', g') else None
       | None => None
       end
   end.
@@ -208,8 +213,59 @@ Fixpoint corr_run (cfg : list Z) (st : endpoint * reg) (steps : list hstep) (i :
                  end
   end.
 
+Fixpoint corr_fold (cfg : list Z) (st : endpoint * reg) (steps : list hstep) : option (endpoint * reg) :=
+  match steps with
+  | [] => Some st
+  | h :: rest => match corr_step cfg st h with Some st' => corr_fold cfg st' rest | None => None end
+  end.
+
+Definition robs_eqb (a b : robs) : bool :=
+  match a, b with
+  | RdData n1 a1 p1 v1, RdData n2 a2 p2 v2 => (n1 =? n2) && zl_eqb a1 a2 && (p1 =? p2) && zl_eqb v1 v2
+  | RdErr e1, RdErr e2 => e1 =? e2
+  | _, _ => false
+  end.
+
+(* remove r from the front of the first reader whose next result it is *)
+Fixpoint pop_match (r : robs) (rs : list (list robs)) : option (list (list robs)) :=
+  match rs with
+  | [] => None
+  | l :: rest =>
+      match l with
+      | h :: t => if robs_eqb h r then Some (t :: rest)
+                  else match pop_match r rest with Some rest' => Some (l :: rest') | None => None end
+      | [] => match pop_match r rest with Some rest' => Some (l :: rest') | None => None end
+      end
+  end.
+(* the readers' sequences are an interleaving of [reads]: every element exactly once, each reader in order *)
+Fixpoint interleaves (reads : list robs) (rs : list (list robs)) : bool :=
+  match reads with
+  | [] => forallb (fun l => match l with [] => true | _ => false end) rs
+  | r :: rest => match pop_match r rs with Some rs' => interleaves rest rs' | None => false end
+  end.
+
+(* m Reads of the model *)
+Fixpoint model_reads (m : nat) (e : endpoint) : list robs :=
+  match m with
+  | O => []
+  | S m' => match read e with
+            | (e', RData f v) => RdData (fa_nic f) (fa_addr f) (fa_port f) v :: model_reads m' e'
+            | (e', RErr err) => RdErr err :: model_reads m' e'
+            end
+  end.
+
 Definition corr (c : case) : Z :=
-  match c with CHist cfg steps => corr_run cfg (newEndpoint (cfg_max cfg), reg0) steps 0 end.
+  match c with
+  | CHist cfg steps => corr_run cfg (newEndpoint (cfg_max cfg), reg0) steps 0
+  | CConc cfg steps readers =>
+      (* one linearization: the arrivals in injection order, then as many Reads as succeeded *)
+      match corr_fold cfg (newEndpoint (cfg_max cfg), reg0) steps with
+      | Some (e, _) =>
+          let m := fold_right (fun l acc => (length l + acc)%nat) O readers in
+          if interleaves (model_reads m e) readers then 0 else 2
+      | None => 1
+      end
+  end.
 
 (* ======================= spec: abstract oracle from the property text ======================= *)
 
@@ -330,7 +386,7 @@ Definition spec_step (cfg : list Z) (s : sst) (h : hstep) : option sst :=
         | HPanic _ => None
         end in
       match res with
-      | Some s' => if (qsize (s_q s') =? size) && (Z.of_nat (length (s_q s')) =? qlen) then Some s' else None
+      | Some s' => if (size =? -1) || ((qsize (s_q s') =? size) && (Z.of_nat (length (s_q s')) =? qlen)) then Some s' else None
       | None => None
       end
   end.
@@ -342,7 +398,17 @@ Fixpoint spec_run (cfg : list Z) (s : sst) (steps : list hstep) : option sst :=
   end.
 
 Definition spec (c : case) : Z :=
-  match c with CHist cfg steps => match spec_run cfg s0 steps with Some _ => 0 | None => 1 end end.
+  match c with
+  | CHist cfg steps => match spec_run cfg s0 steps with Some _ => 0 | None => 1 end
+  | CConc cfg steps readers =>
+      (* every accepted datagram is returned exactly once, unchanged, and every reader sees arrival order *)
+      match spec_run cfg s0 steps with
+      | Some s =>
+          if interleaves (map (fun d => RdData (i_nic d) (i_addr d) (i_port d) (i_payload d)) (s_q s)) readers
+          then 0 else 1
+      | None => 1
+      end
+  end.
 
 Definition b2z (b : bool) : Z := if b then 1 else 0.
 
@@ -357,6 +423,9 @@ Definition tag (c : case) : Z :=
           else 1 + b2z (0 <? n_full s) + 2 * b2z (0 <? n_mal s) + 4 * b2z (0 <? n_wok s) + 8 * b2z (0 <? n_cdrop s)
       | None => 1
       end
+  | CConc _ _ readers =>
+      (* 32 + number of readers that got something *)
+      32 + Z.of_nat (length (filter (fun l => match l with [] => false | _ => true end) readers))
   end.
 
 Definition judge (c : case) : list Z := [corr c; spec c; tag c].
